@@ -296,6 +296,31 @@ func TestVerif_C01_Envelopes(t *testing.T) {
 				decrypting++
 			}
 		}
+		// (f) a forgery attributed to the OPENING device itself: the insider also holds the receiver's chain key (every
+		// member was sent it); the receiver has sealed and read back messages of its own, then an envelope naming its
+		// device at its next counters arrives, sealed by the insider
+		if err := vShare(g, w.R, w.M); err == nil {
+			encR, _ := w.R.s.GetShareableChainKey(vctx, g, w.M.md(g).Member())
+			if rCK, err := decryptDeviceChainKey(encR, g, w.M.md(g).member, w.R.md(g).Device()); err == nil {
+				rDev := vRaw(w.R.md(g).Device())
+				own := vSeal(w.R, g, []byte("the receiver's own message"))
+				if _, err := vOpen(w.R, g, own, vCID(own)); err != nil {
+					fail("honest-rejected/own-message", "the receiver cannot read back its own message: %v", err)
+				}
+				for _, k := range []uint64{rCK.Counter + 1, rCK.Counter + 2} { // the one just sealed, and the next one
+					mk := vMessageKeyAt(rCK.ChainKey, rCK.Counter, k, gid)
+					fenv := vBuildEnvelope(g, &protocoltypes.MessageHeaders{Counter: k, DevicePk: rDev, Sig: insiderSig}, vSealPayloadWithKey(mk, k, vWrap(forged)), nonce())
+					present(fmt.Sprintf("f/attributed-to-the-opening-device/counter+%d", k-rCK.Counter), fenv, g, 2)
+				}
+				classes["f"] = true
+				decrypting++
+				// its own next message still round-trips
+				own2 := vSeal(w.R, g, []byte("second own message"))
+				if o, err := vOpen(w.R, g, own2, vCID(own2)); err != nil || !bytes.Equal(o.Payload, []byte("second own message")) {
+					fail("honest-rejected/own-message", "after forgeries naming its own device the receiver cannot read back its next own message: %v", err)
+				}
+			}
+		}
 		// (e) the insider first relays a genuine message of the sender outside the store (push), announcing it under the
 		// content identifier of an entry it forged for the same counter; then the forged entry arrives through the store
 		for i, m := range msgs {
